@@ -871,6 +871,8 @@ func main() {
 	// F6/F7/F8: runtime shim wiring (clone.go, equal.go, marshal_text.go, extensions.go, json.go, grpc_codec.go, message_types.go, reset.go)
 	curInfo = root.info
 	writeShimFacts(root, filepath.Join(*out, "Shim.lean"))
+	writeTemplateFacts(*repo, filepath.Join(*out, "Templates.lean"))
+	writeAliasFacts(root, *repo, filepath.Join(*out, "Aliasing.lean"))
 
 	// F9: lazyproto accessors: helper used, expected wire type, csproto decode function, scratch slice
 	lz, err := load(filepath.Join(*repo, "lazyproto"))
